@@ -265,6 +265,13 @@ def nest(case_id):
     return [produce(case_id), 1]
 
 
+@m.memento_function(version="tw1")
+def twice(case_id):
+    """Makes the same nested call twice, and once more in a batch with a duplicate (C19: null storage)."""
+    REC.hit("twice", case_id)
+    return [produce(case_id), produce(case_id), produce.call_batch([{"case_id": case_id}, {"case_id": case_id}])]
+
+
 @m.memento_function(version="o1")
 def outer(case_id):
     """Reaches `produce` through a one-element batch of `nest` only."""
